@@ -376,6 +376,38 @@ def kv_flag_docs(run, shard, thorough: bool) -> None:
     run.count('kv_flag_docs', idx)
 
 
+LONG_UNITS = ['/**/', '/* x */ ', '/*\n*/', '// c\n', '\n', '\r\n', ' ', '\t', '"a" ', '"a"\n', 'a\n', '{\n', '}\n', '{', '[x]', '[x]\n', '(y)', '# ', '#a\n',
+              'a:b ', 'a+', '+', ':', '=', ',', '\\', '"\\n"', '"a\nb" ', '\ufeff', '*/', '/*', '"', '[', '(']
+
+
+def long_runs(run, shard, thorough: bool) -> None:
+    """Inputs that are unusual in SIZE: one small unit repeated hundreds or thousands of times (alone, and between two tokens).
+    Totality and the linear step bound must hold whatever the length; deliveries: one string, lines, 7-character chunks."""
+    reps = (600, 1500, 5000) if thorough else (600, 1500)
+    base = dict(zip(OPT_NAMES, (False, True, True, False, False, False, False)))
+    optsets = [base, dict(base, allow_star_comments=True), dict(base, allow_star_comments=True, preserve_comments=True),
+               dict(base, string_bracket=True, colon_operator=True, plus_operator=True), dict(base, string_parens=False, allow_escapes=False)]
+    idx = 0
+    for unit in LONG_UNITS:
+        for n in reps:
+            for shape in ('{u}', 'a {u}b', '"k" {u}"v"\n'):
+                idx += 1
+                if not mine(idx, shard):
+                    continue
+                text = shape.replace('{u}', unit * n)
+                for opts in optsets:
+                    ref, steps = trace(text, opts, len(text), counting=True)
+                    check_trace_sanity(run, text, opts, ref, steps, 'long-runs')
+                    dl = [('lines', text.splitlines(keepends=True)), ('chunks7', [text[i:i + 7] for i in range(0, len(text), 7)])]
+                    compare_deliveries(run, text, opts, ref, dl, 'long-runs')
+                out = kv_outcome(text, {})
+                if out[0] == 'BAD-EXC':
+                    run.violation(f'Keyvalues.parse raised {out[1]}: {out[2][:200]}', case={'text': text[:60] + f'... ({len(text)} chars: {unit!r} x {n})', 'kv_opts': {}},
+                                  engine='long-runs', key='kvparse-untyped-exception')
+                run.case_bulk(len(optsets), len(optsets))
+    run.count('long_run_texts', idx)
+
+
 KV_ALPHA = ['"', 'a', ' ', '\n', '{', '}', '[', ']', '!']
 
 
@@ -432,9 +464,10 @@ def main(run, shard=(0, 1)) -> None:
     random_docs(run, shard, thorough)
     kv_flag_docs(run, shard, thorough)
     kv_exhaustive(run, shard, thorough)
+    long_runs(run, shard, thorough)
     run.sample({'text': '"a\r', 'chunks': ['"a', '\r'], 'opts': '0010000'}, 'exhaustive')
     probe.check_reached(run)
-    run.require('real_file_deliveries', 'exhaustive_text_x_options', 'focused_text_x_options', 'deliveries_compared', 'kv_parse_calls', 'kv_exhaustive_texts_x_options')
+    run.require('long_run_texts', 'real_file_deliveries', 'exhaustive_text_x_options', 'focused_text_x_options', 'deliveries_compared', 'kv_parse_calls', 'kv_exhaustive_texts_x_options')
 
 
 def replay(run, data) -> None:
